@@ -196,8 +196,10 @@ class World(object):
 
     def reset(self):
         """(Re)build the prior cache and the ZooKeeper state of the case; the
-        root and the EventMgr object (stateless) are kept."""
+        root is kept, the agent is a new process (a new EventMgr object: what
+        one run kept in memory must not reach the next one)."""
         case = self.case
+        self.restart_agent()
         for entry in os.listdir(self.cache):
             os.unlink(os.path.join(self.cache, entry))
         self.clk = [BASE_MS]
@@ -210,6 +212,11 @@ class World(object):
         self.incomplete_sync = False    # some sync could not cache a listed
         self.event_no = 0               # instance (no manifest / no record)
         self.last_event = None
+        # placed instances a synchronisation of this agent listed while
+        # their manifest was not in ZooKeeper / whose manifest was written
+        # since and that still wait for their first file
+        self.seen_orphan = set()
+        self.late_manifest = set()
         self.zk.ensure_path(z.path.placement(self.host))
         self.zk.ensure_path(z.path.scheduled())
 
@@ -287,6 +294,11 @@ class World(object):
         self._accepted = {}
         # name -> everything the dump function emitted in a finished dump
         self.intended = {}
+
+    def restart_agent(self):
+        """The service exits and is started again: nothing held in memory by
+        the old process survives."""
+        self.evmgr = eventmgr.EventMgr(root=self.root)
 
     def close(self):
         shutil.rmtree(self.root, ignore_errors=True)
@@ -374,13 +386,29 @@ class World(object):
             if self.apply_mut(mut):
                 changed = True
         self.allowed = set(self.prior) | before | set(self.expected)
+        self.seen_orphan &= set(self.expected)
+        self.late_manifest &= set(self.expected)
+        for name in sorted(self.seen_orphan):
+            if self.new.get(name) is not None and name not in self.prior:
+                self.late_manifest.add(name)
+        self.late_manifest = {name for name in self.late_manifest
+                              if self.new.get(name) is not None}
         self.last_event = {
             'no': self.event_no, 'children_changed': changed,
+            'late_manifest': sorted(self.late_manifest),
             'added': sorted(set(self.expected) - before),
             'removed': sorted(before - set(self.expected)),
             'raced': None, 'after_incomplete': self.incomplete_sync,
             'uncachable': self.uncachable(), 'fs_points': 0,
         }
+
+    def event_synchronised(self):
+        """Bookkeeping after a synchronisation of the agent has returned:
+        which listed instances had no manifest in ZooKeeper at that time."""
+        self.late_manifest = set()
+        self.seen_orphan = {
+            name for name in self.expected
+            if z.path.scheduled(name) not in self.tree.nodes}
 
     def deliver_event(self, step):
         """Deliver the queued watch events to whatever watches the agent has
